@@ -165,6 +165,25 @@ def connVer (st : BkState) (conn : Nat) : Nat :=
   | some i => (getObj st.srv i).ver
   | none => 4
 
+/-- the CONNECT a `bk.conn` / `bk.connhold` line describes -/
+def parseConnect (ver clean cid : String) (kv : List String) : Option Connect := do
+  let ver ← ver.toNat?
+  let will : Option Will := match kvGet kv "will" with
+    | some w => match w.splitOn ":" with
+      | [t, p, q, r, d] => (do
+          let tb ← parseHex t; let pb ← parseHex p; let qn ← q.toNat?; let dn ← d.toNat?
+          let rb : Bool := r == "1"
+          let dl : Nat := if ver == 5 then dn else 0
+          some { topic := tb, payload := pb, qos := qn, retain := rb, delay := dl } : Option Will)
+      | _ => none
+    | none => none
+  let cidB ← parseHex cid
+  let isClean : Bool := clean == "1"
+  let seiO : Option Nat := if ver == 5 then kvNatO kv "sei" else none
+  let rmO : Option Nat := if ver == 5 then kvNatO kv "rm" else none
+  let tamO : Option Nat := if ver == 5 then kvNatO kv "tam" else none
+  some { ver := ver, clean := isClean, id := cidB, sei := seiO, rm := rmO, tam := tamO, will := will }
+
 /-- broker ops (see go/cmd/vharness/broker.go for the op vocabulary) -/
 def brokerOpCore (st : BkState) (impl : String) : List String → Option (BkState × String × String × String)
   | "bk.new" :: kv =>
@@ -186,23 +205,14 @@ def brokerOpCore (st : BkState) (impl : String) : List String → Option (BkStat
   | ["bk.pubhook", topic, mode] => do
     some ({ st with srv := { st.srv with pubHook := assocSet st.srv.pubHook (← parseHex topic) mode } }, "-", "ok", "-")
   | "bk.conn" :: n :: ver :: clean :: cid :: kv => do
-    let n ← n.toNat?; let ver ← ver.toNat?
-    let will : Option Will := match kvGet kv "will" with
-      | some w => match w.splitOn ":" with
-        | [t, p, q, r, d] => (do
-            let tb ← parseHex t; let pb ← parseHex p; let qn ← q.toNat?; let dn ← d.toNat?
-            let rb : Bool := r == "1"
-            let dl : Nat := if ver == 5 then dn else 0
-            some { topic := tb, payload := pb, qos := qn, retain := rb, delay := dl } : Option Will)
-        | _ => none
-      | none => none
-    let cidB ← parseHex cid
-    let isClean : Bool := clean == "1"
-    let seiO : Option Nat := if ver == 5 then kvNatO kv "sei" else none
-    let rmO : Option Nat := if ver == 5 then kvNatO kv "rm" else none
-    let tamO : Option Nat := if ver == 5 then kvNatO kv "tam" else none
-    let k : Connect := { ver := ver, clean := isClean, id := cidB, sei := seiO, rm := rmO, tam := tamO, will := will }
+    let n ← n.toNat?
+    let k ← parseConnect ver clean cid kv
     let (st, out) := stepSearch { st with order := st.order ++ [n] } (.connect n k) impl (some n)
+    some (st, out, "ok", "-")
+  | "bk.connhold" :: stage :: n :: ver :: clean :: cid :: kv => do
+    let n ← n.toNat?
+    let k ← parseConnect ver clean cid kv
+    let (st, out) := stepSearch { st with order := st.order ++ [n] } (.connectHold n k (if stage == "auth" then 1 else 2)) impl (some n)
     some (st, out, "ok", "-")
   | "bk.send" :: n :: rest => do
     let n ← n.toNat?
@@ -222,7 +232,13 @@ def brokerOpCore (st : BkState) (impl : String) : List String → Option (BkStat
     some (st, out, "ok", "-")
   | ["bk.release", n] => do
     let n ← n.toNat?
-    let (st, out) := stepSearch st (.release n) impl none
+    let isPending := st.srv.pending.any (·.conn == n)
+    let (st, out) := stepSearch st (.release n) impl (if isPending then some n else none) (if isPending then [] else [n])
+    some (st, out, "ok", "-")
+  | ["bk.dropholdearly", n] => do
+    let n ← n.toNat?
+    if st.closedSeen.contains n || !(st.order.contains n) then some (st, "no-conn", "ok", "-") else
+    let (st, out) := stepSearch st (.dropHoldEarly n) impl none [n]
     some (st, out, "ok", "-")
   | ["bk.tick", kind, d] => do
     let (st, out) := stepSearch st (.tick kind (NOW + (← d.toInt?))) impl none
